@@ -238,6 +238,25 @@ def r_c14_documented_forms(s4, repo, scratch):
             'observed': 'as expected' if not bad else 'with %s expected %s, got %s' % bad, 'failed': bool(bad)}
 
 
+def r_c14_relative_to_program_start(s4, repo, scratch):
+    """'-1h' means one hour before program start, whatever --tz-offset is"""
+    import time, datetime
+    inp = os.path.join(scratch, 'c14_now.log')
+    now = int(time.time())
+    rows = [(now - 8 * 3600, 'eight hours ago'), (now - 3 * 3600, 'three hours ago'), (now - 1800, 'half an hour ago')]
+    open(inp, 'w').write(''.join('%s %s\n' % (datetime.datetime.fromtimestamp(t, datetime.timezone.utc).strftime('%Y-%m-%dT%H:%M:%S+00:00'), m) for t, m in rows))
+    bad = None
+    for tz in ('+00:00', '+05:00', '-05:00', '+09:30'):
+        for args, want in ((['--dt-after=-1h'], 1), (['--dt-after=-4h', '--dt-before=-1h'], 1), (['--dt-after=-9h'], 3)):
+            rc, out, err = run_s4(s4, ['--color', 'never', '-t=' + tz] + args + [inp])
+            got = len([l for l in out.split(b'\n') if l.strip()])
+            if got != want:
+                bad = bad or ('-t=%s %s' % (tz, ' '.join(args)), want, got)
+    return {'name': 'C14.relative_to_program_start', 'input': inp, 'how_made': 'three lines stamped 8 h, 3 h and 30 min before the recipe ran (zone +00:00)',
+            'cmd': '%s --color never -t=<zone> --dt-after=-1h %s' % (s4, inp), 'expected': 'the same messages for every --tz-offset',
+            'observed': 'as expected' if not bad else 'with %s expected %d message(s), got %d' % bad, 'failed': bool(bad)}
+
+
 def r_c03_evtx_window(s4, repo, scratch):
     """an event log stored out of order: every record with creation time <= B is printed under --dt-before B"""
     f = os.path.join(repo, 'logs/programs/evtx/Microsoft-Windows-Kernel-PnP%4Configuration.evtx')
@@ -583,9 +602,9 @@ RECIPES = {
     'C01': [r_c01_tie_order, r_c01_chronological, r_c01_submillisecond, r_c01_yearless_rollover_at_first_message, r_c01_stdin_paths_position],
     'C06': [r_c01_tie_order, r_c01_chronological, r_c01_submillisecond],
     'C13': [r_c13_field_order_fixedstruct, r_c13_align_widest_printed, r_c13_evtx_prepend_file_only, r_c13_prependdate_lines_in_parts],
-    'C03': [r_c03_journal_before_inclusive, r_c03_evtx_window, r_c03_yearless_tie_at_after],
+    'C03': [r_c03_journal_before_inclusive, r_c03_evtx_window, r_c03_yearless_tie_at_after, r_c14_relative_to_program_start],
     'C11': [r_c11_years_across_two_new_years, r_c01_yearless_rollover_at_first_message],
-    'C14': [r_c14_documented_forms],
+    'C14': [r_c14_documented_forms, r_c14_relative_to_program_start],
     'C08': [r_c08_equal_times, r_c08_order, r_c08_smallest_layout_single_record, r_c08_compressed_returns_to_earlier_block],
 }
 
